@@ -65,6 +65,17 @@ PUBSUB_FREE = ("free-running concurrent ChanPubSub programs in a synctest bubble
                "detection + real-time stall watchdog. ")
 
 
+PUBSUB_STEP = (" Plus pubsubstep: model-based stepper in a bubble with generator-paced subscribers (manual: recv / hold / ack=Wait / leave; iterators with a gated loop body, cancel, "
+               "break, never-run) and a Send whose phases (counted N -> delivery -> pong -> returned) are tracked by the model; exact enabledness at every quiescent point (who received, "
+               "whose Wait returned, Send returned iff all copies delivered/absorbed and all receivers acknowledged, Send(nobody)=0 at once, a Subscribe launched during delivery must wait "
+               "and is not counted), final count, fresh round, no goroutine left; non-trivial = a leave during delivery, a join during the pong phase or a deferred subscription.")
+
+
+def pubsubstep(prof, quick, thorough):
+    return {"name": "pubsubstep", "test": "TestPubSubStep", "steps": 40, "checks": {"quick": quick, "thorough": thorough},
+            "shards": {"quick": 8, "thorough": 16}, "env": {"VKIT_PROFILE": prof}}
+
+
 def pubsubfree(prof, quick, thorough):
     return {"name": "pubsubfree", "test": "TestPubSubFree", "checks": {"quick": quick, "thorough": thorough},
             "shards": {"quick": 8, "thorough": 16}, "env": {"VKIT_PROFILE": prof}, "stall_sig": prof + "/stall"}
@@ -98,6 +109,14 @@ def exclstep(prof, quick, thorough):
 
 
 CONFIG = {
+    "C17": {
+        "rule": ("rapid engine over bigbuff.Worker in a synctest bubble: stepper rules do (launched Do), done(holder), exit(instance gate: the worker function returns after it saw stop), race steps "
+                 "(release every holder together with new Do calls on real Ps), plus free-running modes (2-8 holders doing Do -> yields -> done in loops, bursts of 16-96 rounds); the worker function "
+                 "stamps start / stop-seen / exit on a logical clock. Oracle: instances never overlap, exactly one running instance with an open stop channel while anybody holds it, stop closed only "
+                 "after every outstanding done was called, a Do arriving while an instance stops waits for its exit and gets a fresh instance, every instance stopped once unheld, no goroutine left. "
+                 "non-trivial = >=2 instances and (last done racing a new Do, or a Do while the instance is stopping); distinct = hash of the case."),
+        "jobs": [{"name": "worker", "test": "TestC17Worker", "steps": 30, "checks": {"quick": 16000, "thorough": 500000}, "shards": {"quick": 8, "thorough": 16}, "env": {"VKIT_PROFILE": "C17"}}],
+    },
     "C20": {
         "rule": ("rapid stepper over LinearAttempt in a synctest bubble (virtual time): count 1-6, rate in {1ns,1ms,1s}, context cancellable/deadline/Err-only/pre-cancelled/background, "
                  "receiver policy prompt/every-k/stop-after-j/parked/absent/free, cancellation at a drawn instant incl. exactly on a tick (timer tie), just before/after, mid-interval, before the "
@@ -146,12 +165,12 @@ CONFIG = {
         "jobs": [exclstep("C10", 16000, 600000), exclfree("C10", 16000, 800000)],
     },
     "C06": {
-        "rule": PUBSUB_FREE + "non-trivial = an unsubscribe overlapping a Send in logical time, or >=2 senders whose Sends overlapped; distinct = hash of the generated program.",
-        "jobs": [pubsubfree("C06", 60000, 3000000)],
+        "rule": PUBSUB_FREE + "non-trivial = an unsubscribe overlapping a Send in logical time, or >=2 senders whose Sends overlapped; distinct = hash of the generated program." + PUBSUB_STEP,
+        "jobs": [pubsubfree("C06", 60000, 3000000), pubsubstep("C06", 12000, 500000)],
     },
     "C07": {
-        "rule": PUBSUB_FREE + "non-trivial = an unsubscribe overlapping a Send's call/return interval (leaver subscribed before the Send), or an iterator that is never run; distinct = hash of the generated program.",
-        "jobs": [pubsubfree("C07", 60000, 3000000)],
+        "rule": PUBSUB_FREE + "non-trivial = an unsubscribe overlapping a Send's call/return interval (leaver subscribed before the Send), or an iterator that is never run; distinct = hash of the generated program." + PUBSUB_STEP,
+        "jobs": [pubsubfree("C07", 60000, 3000000), pubsubstep("C07", 12000, 500000)],
     },
     "C08": {
         "rule": ("three rapid engines over bigbuff.ChanCaster: (step) model-based stepper in a synctest bubble: register(1-3), receive (select on C/quit), "
